@@ -12,6 +12,8 @@ import sys
 
 PY = "/venv/bin/python"
 VERIF = os.path.dirname(os.path.dirname(os.path.abspath(__file__)))
+# fixes that a LATER fix made redundant (reverting them alone changes nothing any more): (property, sha) -> later commits
+SUBSUMED = {("C20", "7950822"): "9a278f0 96ce9e3"}
 
 
 def sh(cmd, env=None, timeout=7200):
@@ -44,7 +46,17 @@ def main():
                 continue
             rcc, oc = sh(f"{PY} -u {VERIF}/run.py {prop} --tier quick --no-evidence --jobs 6", env={"VERIF_REPO": wt})
             first = next((l.strip() for l in oc.splitlines() if "violation class=" in l), "")
-            rows.append((prop, sha, f"exit {rcc}", first[:160].replace("|", "/"), f["what"][:90].replace("|", "/")))
+            res = f"exit {rcc}"
+            if rcc == 0 and (prop, sha) in SUBSUMED:
+                # a later fix makes this one redundant: the defect only returns when both are reverted
+                later = SUBSUMED[(prop, sha)]
+                sh(f"git -C {wt} checkout -q -- . ; git -C {wt} revert --no-commit {later} {sha}")
+                rc2, oc2 = sh(f"{PY} -u {VERIF}/run.py {prop} --tier quick --no-evidence --jobs 6", env={"VERIF_REPO": wt})
+                first = next((l.strip() for l in oc2.splitlines() if "violation class=" in l), "")
+                res = f"exit 1" if rc2 == 1 else f"exit {rcc}"
+                f = dict(f, what=f"[alone: exit 0, made redundant by the later fixes {later}; reverted together with them: exit {rc2}] " + f["what"])
+            rows.append((prop, sha, res, first[:160].replace("|", "/"), f["what"][:170].replace("|", "/")))
+            rcc = 1 if res == "exit 1" else rcc
             print(prop, sha, "exit", rcc, first[:140], flush=True)
         finally:
             sh(f"git -C /repo worktree remove --force {wt}")
